@@ -15,3 +15,67 @@ Theorem c27_gen_source_order :
   /\ map (env_local genv) srcs_desc = [true; true; true; false; false; false].
 Proof. split; vm_compute; reflexivity. Qed.
 Print Assumptions c27_gen_source_order.
+
+From Coq Require Import Lia Permutation.
+From Verif.C27 Require Import Proofs Props.
+
+(* The generated table and source list meet the hypotheses of the general theorems: knownParams is keyed by the
+   lower-cased field name; the sources are listed in strictly descending order and are all above "<default>" = 0. *)
+Lemma gen_known_name : forall lk m, known_in known_table lk = Some m -> lower_b (pm_name m) = lk.
+Proof. apply known_in_name. vm_compute. reflexivity. Qed.
+Lemma gen_sdesc : sdesc srcs_desc.
+Proof. simpl. repeat split; intros u Hu; simpl in Hu; repeat (destruct Hu as [<-|Hu]; [lia|]); contradiction. Qed.
+Lemma gen_pos : forall s, In s srcs_desc -> 0 < s.
+Proof. intros s Hs. simpl in Hs. repeat (destruct Hs as [<-|Hs]; [lia|]). contradiction. Qed.
+
+Theorem c27_gen_table_wf :
+  (forall lk m, known_in known_table lk = Some m -> lower_b (pm_name m) = lk)
+  /\ sdesc srcs_desc /\ (forall s, In s srcs_desc -> 0 < s).
+Proof. exact (conj gen_known_name (conj gen_sdesc gen_pos)). Qed.
+Print Assumptions c27_gen_table_wf.
+
+(* The general theorems on the REAL parameter table and source order, for every parse function. *)
+Theorem c27_gen_highest_source_decides : forall parse fixed (c : cfg bytes bytes),
+  match resolve beqb bleb lower_b is_none_b (known_in known_table) parse srcs_desc (env_local genv) fixed false c with
+  | None => SpecFatal bytes bytes bytes beqb lower_b is_none_b (known_in known_table) parse (env_local genv) srcs_desc fixed c
+  | Some st => ~ SpecFatal bytes bytes bytes beqb lower_b is_none_b (known_in known_table) parse (env_local genv) srcs_desc fixed c
+               /\ forall lk m, known_in known_table lk = Some m ->
+                    Some (effective beqb st m) = spec_outcome bytes bytes bytes beqb lower_b is_none_b parse (env_local genv) srcs_desc c m
+  end.
+Proof.
+  intros parse. exact (c27_highest_source_decides bytes bytes bytes beqb lower_b is_none_b (known_in known_table) parse
+                         (env_local genv) bleb srcs_desc beqb_eq gen_known_name gen_sdesc gen_pos).
+Qed.
+Print Assumptions c27_gen_highest_source_decides.
+
+Theorem c27_gen_shadowed_irrelevant : forall parse (c c' : cfg bytes bytes) s0 s1 lk0 m0,
+  known_in known_table lk0 = Some m0 -> deciding beqb lower_b srcs_desc (env_local genv) c m0 = Some s1 -> s0 < s1 ->
+  differ_only bytes bytes bytes beqb lower_b c c' s0 m0 ->
+  res_equiv bytes bytes bytes beqb (known_in known_table)
+    (resolve beqb bleb lower_b is_none_b (known_in known_table) parse srcs_desc (env_local genv) true false c)
+    (resolve beqb bleb lower_b is_none_b (known_in known_table) parse srcs_desc (env_local genv) true false c').
+Proof.
+  intros parse. exact (c27_shadowed_irrelevant bytes bytes bytes beqb lower_b is_none_b (known_in known_table) parse
+                         (env_local genv) bleb srcs_desc beqb_eq gen_known_name gen_sdesc gen_pos).
+Qed.
+Print Assumptions c27_gen_shadowed_irrelevant.
+
+Theorem c27_gen_local_only_ignored_from_datastore : forall parse fixed (c c' : cfg bytes bytes) s0 lk0 m0,
+  known_in known_table lk0 = Some m0 -> pm_local m0 = true -> env_local genv s0 = false ->
+  differ_only bytes bytes bytes beqb lower_b c c' s0 m0 ->
+  res_equiv bytes bytes bytes beqb (known_in known_table)
+    (resolve beqb bleb lower_b is_none_b (known_in known_table) parse srcs_desc (env_local genv) fixed false c)
+    (resolve beqb bleb lower_b is_none_b (known_in known_table) parse srcs_desc (env_local genv) fixed false c').
+Proof.
+  intros parse. exact (c27_local_only_ignored_from_datastore bytes bytes bytes beqb lower_b is_none_b (known_in known_table) parse
+                         (env_local genv) bleb srcs_desc beqb_eq gen_known_name gen_sdesc gen_pos).
+Qed.
+Print Assumptions c27_gen_local_only_ignored_from_datastore.
+
+(* The real table has parameters for which the pinned code's defect is live (fatal flags, settable from the datastore),
+   and local-only parameters for which the local-only clause is not vacuous. *)
+Theorem c27_gen_flags_present :
+  existsb (fun m => (pm_die m || pm_nonzero m) && negb (pm_local m)) param_table = true
+  /\ existsb (fun m => pm_local m && pm_die m) param_table = true.
+Proof. split; vm_compute; reflexivity. Qed.
+Print Assumptions c27_gen_flags_present.
